@@ -7,6 +7,17 @@
 //! hierarchy, ≤16 recent messages after the latest summary, reply texts). Metamorphic checks:
 //! identical under every cache state, identical after frames are appended beyond the cut,
 //! identical with the session snapshot removed, and identical while appenders race with it.
+//!
+//! Two further dimensions of the history space are enumerated and seeded:
+//! * INTERLEAVED RUNS — runs of older messages that end late (K run_ended frames, K from 1 to more than a
+//!   thousand, landing one by one between the most recent messages or in a burst right before a cut), several
+//!   runs per message, runs that never end, quick question/answer turns overlapping one slow run; every reply
+//!   is real text in the truth log (and, seeded, a snapshot), so the model's "last run ended at or before the
+//!   cut" pairing is observable in the bundle;
+//! * DISTANCE — later traffic (big messages) puts the anchor region at a chosen distance from the tail of the
+//!   messages+runs sidecar: beyond the 8 MiB tail-scan limit (seekable-window path), or with one of the byte
+//!   budgets 256 KiB … 8 MiB falling inside the region; in such layouts every message of the region is an anchor,
+//!   plus the messages of the later traffic that sit around each byte budget.
 
 use crate::c04::{diff_summary, run_query, QueryDef};
 use crate::fixture::{runtime, wait_for, App, Store};
@@ -15,6 +26,7 @@ use crate::prng::Rng;
 use crate::report::{Cfg, Report};
 use crate::sched::sched;
 use crate::truth;
+use rip_kernel::{Event, EventKind};
 use serde_json::{json, Value};
 use std::collections::HashMap;
 use std::sync::atomic::{AtomicBool, Ordering};
@@ -168,32 +180,143 @@ struct Layout {
     filler: usize,
     /// compile every message as anchor (window-boundary effects sit at unpredictable positions)
     all_anchors: bool,
+    /// percent of the (non-routed) messages that get a frame-only run directly after them (sequential turns)
+    seq_runs: u64,
+    /// interleaved (parallel) runs: runs of OLDER messages whose run_ended lands between more recent messages
+    late: Option<Late>,
+    /// later traffic after the anchor region: sets the DISTANCE between the anchors and the tail of the
+    /// messages+runs sidecar relative to the internal read budgets
+    pad: Option<Pad>,
 }
 
-fn layouts(rng: &mut Rng, idx: u64) -> Layout {
+/// Runs that overlap later turns of the same thread.
+#[derive(Clone, Debug)]
+struct Late {
+    /// number of run_ended frames of older runs that land late
+    k: usize,
+    /// where they land: "spread" = one by one between the most recent messages before a cut, "burst" = all
+    /// right before one cut, "mixed" = half and half
+    place: &'static str,
+    /// how many older messages own these runs (k > owners: several runs per message, the last run_ended wins)
+    owners: usize,
+    /// runs that are spawned and never end
+    never: usize,
+}
+
+/// Bytes of later traffic (big messages) appended after the anchor region.
+#[derive(Clone, Debug)]
+struct Pad {
+    /// an internal byte budget: 256 KiB << n (initial tail window … 8 MiB tail-scan limit)
+    threshold: usize,
+    /// true: the region lies wholly beyond `threshold` bytes from the tail; false: the threshold falls INSIDE the
+    /// anchor region (anchors on both sides of it)
+    beyond: bool,
+    /// bytes per pad message
+    msg: usize,
+    /// pad messages are answered (one frame-only run each)
+    runs: bool,
+}
+
+const KIB: usize = 1024;
+const MIB: usize = 1024 * 1024;
+/// byte budgets the read paths switch on (tail window doubling 256 KiB → 8 MiB; beyond: seekable window)
+const BUDGETS: [usize; 6] = [256 * KIB, 512 * KIB, MIB, 2 * MIB, 4 * MIB, 8 * MIB];
+
+fn dist_class(d: u64) -> &'static str {
+    const NAMES: [&str; 6] = ["le256K", "le512K", "le1M", "le2M", "le4M", "le8M"];
+    for (i, b) in BUDGETS.iter().enumerate() {
+        if d <= *b as u64 {
+            return NAMES[i];
+        }
+    }
+    "gt8M"
+}
+
+/// K of a class: few / around the message limit / up to a few tens / hundreds (crosses frame-count strides) /
+/// more than a thousand (their bytes alone exceed the initial 256 KiB window)
+fn late_k(rng: &mut Rng, lo_class: usize, span: usize) -> usize {
+    let class = lo_class + rng.usize(span.max(1));
+    match class {
+        0 => 1 + rng.usize(3),
+        1 => 4 + rng.usize(13),
+        2 => 17 + rng.usize(24),
+        3 => 100 + rng.usize(200),
+        _ => 900 + rng.usize(500),
+    }
+}
+
+fn fixed_layouts(rng: &mut Rng) -> Vec<Layout> {
     let fixed: Vec<Layout> = vec![
-        Layout { name: "exactly_15", msgs: 15, dense: 0, real_runs_every: 4, ckpts: vec![], auto_stride: None, filler: 0, all_anchors: false },
-        Layout { name: "exactly_16", msgs: 16, dense: 1, real_runs_every: 5, ckpts: vec![], auto_stride: None, filler: 0, all_anchors: false },
-        Layout { name: "exactly_17", msgs: 17, dense: 0, real_runs_every: 6, ckpts: vec![], auto_stride: None, filler: 0, all_anchors: false },
-        Layout { name: "ckpt_then_16", msgs: 20, dense: 0, real_runs_every: 7, ckpts: vec![4], auto_stride: None, filler: 0, all_anchors: false },
-        Layout { name: "ckpt_then_17", msgs: 21, dense: 2, real_runs_every: 0, ckpts: vec![4], auto_stride: None, filler: 0, all_anchors: false },
-        Layout { name: "ckpt_at_last", msgs: 9, dense: 0, real_runs_every: 3, ckpts: vec![9], auto_stride: None, filler: 0, all_anchors: false },
-        Layout { name: "equal_to_seq_twice", msgs: 10, dense: 0, real_runs_every: 0, ckpts: vec![5, 5, 5], auto_stride: None, filler: 0, all_anchors: false },
-        Layout { name: "halving_4", msgs: 40, dense: 0, real_runs_every: 0, ckpts: vec![2, 5, 10, 20, 38], auto_stride: None, filler: 0, all_anchors: false },
-        Layout { name: "halving_dense", msgs: 24, dense: 3, real_runs_every: 9, ckpts: vec![1, 3, 6, 12, 23], auto_stride: None, filler: 0, all_anchors: false },
-        Layout { name: "auto_every_3", msgs: 19, dense: 1, real_runs_every: 5, ckpts: vec![], auto_stride: Some(3), filler: 0, all_anchors: false },
-        Layout { name: "dense_side_effects", msgs: 8, dense: 60, real_runs_every: 3, ckpts: vec![3], auto_stride: None, filler: 0, all_anchors: false },
-        Layout { name: "single_message", msgs: 1, dense: 2, real_runs_every: 1, ckpts: vec![1], auto_stride: None, filler: 0, all_anchors: false },
+        Layout { name: "exactly_15", msgs: 15, dense: 0, real_runs_every: 4, ckpts: vec![], auto_stride: None, filler: 0, all_anchors: false, seq_runs: 33, late: None, pad: None },
+        Layout { name: "exactly_16", msgs: 16, dense: 1, real_runs_every: 5, ckpts: vec![], auto_stride: None, filler: 0, all_anchors: false, seq_runs: 33, late: None, pad: None },
+        Layout { name: "exactly_17", msgs: 17, dense: 0, real_runs_every: 6, ckpts: vec![], auto_stride: None, filler: 0, all_anchors: false, seq_runs: 33, late: None, pad: None },
+        Layout { name: "ckpt_then_16", msgs: 20, dense: 0, real_runs_every: 7, ckpts: vec![4], auto_stride: None, filler: 0, all_anchors: false, seq_runs: 33, late: None, pad: None },
+        Layout { name: "ckpt_then_17", msgs: 21, dense: 2, real_runs_every: 0, ckpts: vec![4], auto_stride: None, filler: 0, all_anchors: false, seq_runs: 33, late: None, pad: None },
+        Layout { name: "ckpt_at_last", msgs: 9, dense: 0, real_runs_every: 3, ckpts: vec![9], auto_stride: None, filler: 0, all_anchors: false, seq_runs: 33, late: None, pad: None },
+        Layout { name: "equal_to_seq_twice", msgs: 10, dense: 0, real_runs_every: 0, ckpts: vec![5, 5, 5], auto_stride: None, filler: 0, all_anchors: false, seq_runs: 33, late: None, pad: None },
+        Layout { name: "halving_4", msgs: 40, dense: 0, real_runs_every: 0, ckpts: vec![2, 5, 10, 20, 38], auto_stride: None, filler: 0, all_anchors: false, seq_runs: 33, late: None, pad: None },
+        Layout { name: "halving_dense", msgs: 24, dense: 3, real_runs_every: 9, ckpts: vec![1, 3, 6, 12, 23], auto_stride: None, filler: 0, all_anchors: false, seq_runs: 33, late: None, pad: None },
+        Layout { name: "auto_every_3", msgs: 19, dense: 1, real_runs_every: 5, ckpts: vec![], auto_stride: Some(3), filler: 0, all_anchors: false, seq_runs: 33, late: None, pad: None },
+        Layout { name: "dense_side_effects", msgs: 8, dense: 60, real_runs_every: 3, ckpts: vec![3], auto_stride: None, filler: 0, all_anchors: false, seq_runs: 33, late: None, pad: None },
+        Layout { name: "single_message", msgs: 1, dense: 2, real_runs_every: 1, ckpts: vec![1], auto_stride: None, filler: 0, all_anchors: false, seq_runs: 33, late: None, pad: None },
     ];
     let mut fixed = fixed;
-    fixed.push(Layout { name: "big_messages_60", msgs: 60, dense: 0, real_runs_every: 0, ckpts: vec![], auto_stride: None, filler: 6000, all_anchors: true });
-    fixed.push(Layout { name: "big_messages_ckpt", msgs: 70, dense: 1, real_runs_every: 0, ckpts: vec![8], auto_stride: None, filler: 5000, all_anchors: true });
-    fixed.push(Layout { name: "big_messages_runs", msgs: 48, dense: 0, real_runs_every: 7, ckpts: vec![], auto_stride: None, filler: 8000, all_anchors: true });
+    fixed.push(Layout { name: "big_messages_60", msgs: 60, dense: 0, real_runs_every: 0, ckpts: vec![], auto_stride: None, filler: 6000, all_anchors: true, seq_runs: 33, late: None, pad: None });
+    fixed.push(Layout { name: "big_messages_ckpt", msgs: 70, dense: 1, real_runs_every: 0, ckpts: vec![8], auto_stride: None, filler: 5000, all_anchors: true, seq_runs: 33, late: None, pad: None });
+    fixed.push(Layout { name: "big_messages_runs", msgs: 48, dense: 0, real_runs_every: 7, ckpts: vec![], auto_stride: None, filler: 8000, all_anchors: true, seq_runs: 33, late: None, pad: None });
+    // interleaved runs (a slow run overlapped by quick turns, bursts of late run ends, runs that never end) for
+    // anchors near the tail, at every tail-scan budget, and beyond the 8 MiB tail-scan limit (seekable window)
+    let base = Layout { name: "", msgs: 30, dense: 0, real_runs_every: 0, ckpts: vec![], auto_stride: None, filler: 0, all_anchors: true, seq_runs: 33, late: None, pad: None };
+    let far = |msg: usize| Some(Pad { threshold: 8 * MIB, beyond: true, msg, runs: true });
+    let places = ["spread", "burst", "mixed"];
+    fixed.push(Layout { name: "far_one_slow_run_quick_turns", msgs: 30, seq_runs: 100,
+        late: Some(Late { k: late_k(rng, 0, 1), place: places[rng.usize(3)], owners: 1, never: 0 }), pad: far(60_000), ..base.clone() });
+    fixed.push(Layout { name: "far_late_burst", msgs: 34, dense: 1,
+        late: Some(Late { k: late_k(rng, 2, 1), place: "burst", owners: 3 + rng.usize(6), never: 1 }), pad: far(60_000), ..base.clone() });
+    fixed.push(Layout { name: "tail_scan_limit_inside_region_ckpt", msgs: 48, filler: 800, seq_runs: 50, real_runs_every: 9, ckpts: vec![4],
+        late: Some(Late { k: late_k(rng, 1, 2), place: places[rng.usize(3)], owners: 2 + rng.usize(9), never: 2 }),
+        pad: Some(Pad { threshold: 8 * MIB, beyond: false, msg: 56_000, runs: true }), ..base.clone() });
+    fixed.push(Layout { name: "far_late_flood", msgs: 28, seq_runs: 60,
+        late: Some(Late { k: late_k(rng, 3, 2), place: "mixed", owners: 1 + rng.usize(8), never: 0 }), pad: far(64_000), ..base.clone() });
+    fixed.push(Layout { name: "near_one_slow_run_quick_turns", msgs: 26, seq_runs: 100,
+        late: Some(Late { k: late_k(rng, 0, 1), place: places[rng.usize(3)], owners: 1, never: 1 }), ..base.clone() });
+    fixed.push(Layout { name: "near_late_burst_never_ckpt", msgs: 40, real_runs_every: 7, ckpts: vec![5],
+        late: Some(Late { k: late_k(rng, 1, 2), place: "burst", owners: 2 + rng.usize(8), never: 3 }), ..base.clone() });
+    fixed.push(Layout { name: "mid_budget_inside_region", msgs: 40, filler: 600, seq_runs: 50,
+        late: Some(Late { k: late_k(rng, 1, 2), place: places[rng.usize(3)], owners: 1 + rng.usize(6), never: 1 }),
+        pad: Some(Pad { threshold: BUDGETS[rng.usize(3)], beyond: false, msg: 12_000, runs: rng.bool() }), ..base.clone() });
+    fixed.push(Layout { name: "near_late_flood", msgs: 30,
+        late: Some(Late { k: late_k(rng, 3, 2), place: "mixed", owners: 1 + rng.usize(8), never: 0 }), ..base.clone() });
+    // run order (case index = position; shard = index mod shards): the four multi-MiB layouts early, one per quick
+    // shard, so that a loaded machine reaches them within the budget; the big-message layouts keep their indexes
+    const ORDER: [usize; 23] = [0, 1, 2, 3, 4, 5, 6, 7, 15, 16, 17, 18, 12, 13, 14, 8, 9, 10, 11, 19, 20, 21, 22];
+    if fixed.len() == ORDER.len() {
+        fixed = ORDER.iter().map(|i| fixed[*i].clone()).collect();
+    }
+    fixed
+}
+
+fn layouts(rng: &mut Rng, idx: u64, allow_heavy: bool) -> Layout {
+    let fixed = fixed_layouts(rng);
+    let places = ["spread", "burst", "mixed"];
     if (idx as usize) < fixed.len() {
         return fixed[idx as usize].clone();
     }
     let msgs = 1 + rng.usize(45);
     let nck = rng.usize(6);
+    let late = if rng.chance(1, 2) {
+        let class = [0, 0, 1, 1, 2, 2, 2, 3, 4][rng.usize(9)];
+        Some(Late { k: late_k(rng, class, 1), place: places[rng.usize(3)], owners: 1 + rng.usize(8), never: rng.usize(4) })
+    } else {
+        None
+    };
+    // distance classes: every byte budget, region beyond it or straddling it; the multi-MiB ones are rare (cost)
+    let pad = match rng.below(16) {
+        0 if allow_heavy => Some(Pad { threshold: 8 * MIB, beyond: rng.bool(), msg: 30_000 + rng.usize(40_000), runs: rng.bool() }),
+        1 if allow_heavy => Some(Pad { threshold: BUDGETS[3 + rng.usize(2)], beyond: rng.bool(), msg: 20_000 + rng.usize(40_000), runs: rng.bool() }),
+        2 | 3 | 4 => Some(Pad { threshold: BUDGETS[rng.usize(3)], beyond: rng.bool(), msg: 4_000 + rng.usize(20_000), runs: rng.bool() }),
+        _ => None,
+    };
     Layout {
         name: "random",
         msgs,
@@ -202,7 +325,10 @@ fn layouts(rng: &mut Rng, idx: u64) -> Layout {
         ckpts: (0..nck).map(|_| 1 + rng.usize(msgs)).collect(),
         auto_stride: if rng.chance(1, 4) { Some(rng.range(1, 6)) } else { None },
         filler: if rng.chance(1, 5) { 3000 + rng.usize(6000) } else { 0 },
-        all_anchors: rng.chance(1, 5),
+        all_anchors: rng.chance(1, 5) || pad.is_some(),
+        seq_runs: [33, 33, 100, 0][rng.usize(4)],
+        late,
+        pad,
     }
 }
 
@@ -211,22 +337,44 @@ pub fn run(cfg: &Cfg) -> i32 {
         "C08",
         "exploration",
         "enumerated boundary layouts (15/16/17 messages, checkpoint at/after/beyond the cut, equal to_seq, 1-4 halving levels, \
-         dense side effects, real routed runs with output) plus seeded random layouts; every sampled anchor is compiled by the real \
-         entry point and compared with a raw-log model, then re-compiled under other cache states, after appends beyond the cut, \
-         without the session snapshot, and while appenders race; distinct = distinct (layout shape, anchor position class, strategy)",
+         dense side effects, real routed runs with output; interleaved runs: 1..1400 run_ended frames of older runs landing \
+         between recent messages or in a burst before a cut, never-ending runs, quick turns over one slow run; anchor regions \
+         beyond the 8 MiB tail-scan limit or straddling a 256 KiB..8 MiB byte budget of the messages+runs sidecar) plus seeded \
+         random layouts over the same dimensions; every sampled anchor (every message of the region in the long layouts) is \
+         compiled by the real entry point and compared with a raw-log model, then re-compiled under other cache states, after \
+         appends beyond the cut, without the session snapshot, and while appenders race; distinct = distinct (layout shape, \
+         anchor position + distance class, strategy, late run ends in the window or not)",
     );
     r.assume("the model follows context_bundle.md / ADR-0010 / ADR-0018 as implemented in context_compiler.rs and read from the docs");
     let s = sched();
     let rt = runtime(6);
+    // `--case=N` (or a witness given with --replay): exactly that case index, with the same seed
+    let witness: Option<Value> = cfg.replay.as_ref().and_then(|p| serde_json::from_slice(&std::fs::read(p).ok()?).ok());
+    let only: Option<u64> = cfg
+        .extra
+        .iter()
+        .find_map(|e| e.strip_prefix("--case=").and_then(|v| v.parse().ok()))
+        .or_else(|| witness.as_ref()?["witness"]["case"].as_u64());
+    let seed = witness.as_ref().and_then(|w| w["witness"]["seed"].as_u64()).unwrap_or(cfg.seed);
+    let verbose = cfg.has_flag("--verbose");
+    // the enumerated layouts may start a little past the soft budget (a loaded machine must not silently drop the
+    // directed cases); seeded random layouts only within it
+    let fixed_n = fixed_layouts(&mut Rng::new(0)).len() as u64;
     let mut idx = 0u64;
-    while !r.over(cfg) && idx < cfg.tier.pick(400, 1_000_000) {
+    while idx < cfg.tier.pick(400, 1_000_000) && (!r.over(cfg) || (idx < fixed_n && r.elapsed() < cfg.budget_s * 1.15)) {
         let i = idx;
         idx += 1;
-        if !cfg.mine(i) {
-            continue;
+        match only {
+            Some(o) if o != i => continue,
+            None if !cfg.mine(i) => continue,
+            _ => {}
         }
-        let mut rng = cfg.case_rng(i);
+        let mut rng = Rng::derive(seed, i);
+        let t0 = r.elapsed();
         one_case(cfg, &mut r, &rt, &mut rng, i);
+        if verbose {
+            eprintln!("case {i}: {:.1}s (evaluations so far {})", r.elapsed() - t0, r.evaluations);
+        }
     }
     s.reset();
     r.finish(cfg)
@@ -236,8 +384,83 @@ fn compile_q(anchor: &str) -> QueryDef {
     QueryDef { name: "compile".into(), class: "compile", args: json!({"message_id": anchor}) }
 }
 
+/// One planned overlapping run: spawned right after its (older) message, ended after message `end_after`.
+#[derive(Clone, Debug)]
+struct RunPlan {
+    owner: usize,
+    end_after: Option<usize>,
+    sid: String,
+    text: String,
+    snapshot: bool,
+}
+
+/// Where the late run ends go: a focus cut `c` (1-based message ordinal) with its 16-message window, owners
+/// mostly older than that window.
+fn plan_late(rng: &mut Rng, late: &Late, n: usize, tag: &str, always_snapshot: bool) -> (Vec<RunPlan>, usize) {
+    let mut plans = Vec::new();
+    if n < 2 {
+        return (plans, n);
+    }
+    let c = if n >= 18 && rng.bool() { 17 + rng.usize(n - 16) } else { n };
+    let ws = c.saturating_sub(LIMIT - 1).max(1);
+    let mut owners: Vec<usize> = Vec::new();
+    for _ in 0..late.owners.max(1) {
+        let o = if ws > 1 && rng.chance(3, 4) { 1 + rng.usize(ws - 1) } else { 1 + rng.usize(c.max(2) - 1) };
+        owners.push(o);
+    }
+    for j in 0..late.k {
+        let owner = owners[j % owners.len()];
+        let burst = match late.place {
+            "burst" => true,
+            "spread" => false,
+            _ => j % 2 == 0,
+        };
+        let lo = ws.max(owner);
+        let end = if burst || lo >= c { c } else { lo + rng.usize(c - lo + 1) };
+        plans.push(RunPlan {
+            owner,
+            end_after: Some(end.max(owner)),
+            sid: format!("late-{tag}-{j}"),
+            text: format!("late reply {tag} m{owner} r{j} {}", rng.unicode(4)),
+            snapshot: always_snapshot || rng.bool(),
+        });
+    }
+    for j in 0..late.never {
+        let owner = 1 + rng.usize(n);
+        plans.push(RunPlan { owner, end_after: None, sid: format!("open-{tag}-{j}"), text: format!("partial {tag} {j}"), snapshot: false });
+    }
+    (plans, c)
+}
+
+/// A session written straight into the truth log (and optionally its snapshot), the way a finished or a still
+/// running run leaves it behind: started, output text in two deltas, ended.
+fn write_session(log: &rip_log::EventLog, snapshot_dir: Option<&std::path::Path>, sid: &str, text: &str, ended: bool) {
+    let cut = text.char_indices().nth(text.chars().count() / 2).map(|x| x.0).unwrap_or(0);
+    let mut kinds = vec![
+        EventKind::SessionStarted { input: "q".into() },
+        EventKind::OutputTextDelta { delta: text[..cut].to_string() },
+        EventKind::OutputTextDelta { delta: text[cut..].to_string() },
+    ];
+    if ended {
+        kinds.push(EventKind::SessionEnded { reason: "completed".into() });
+    }
+    let events: Vec<Event> = kinds
+        .into_iter()
+        .enumerate()
+        .map(|(i, kind)| Event { id: format!("{sid}-e{i}"), session_id: sid.to_string(), timestamp_ms: i as u64, seq: i as u64, kind })
+        .collect();
+    for e in &events {
+        let _ = log.append(e);
+    }
+    if let Some(dir) = snapshot_dir {
+        let _ = rip_log::write_snapshot(dir, sid, &events);
+    }
+}
+
 fn one_case(cfg: &Cfg, r: &mut Report, rt: &tokio::runtime::Runtime, rng: &mut Rng, idx: u64) {
-    let lay = layouts(rng, idx);
+    // multi-MiB layouts only while there is budget left for them
+    let allow_heavy = r.elapsed() < cfg.budget_s * 0.55;
+    let lay = layouts(rng, idx, allow_heavy);
     let store = Store::new("c08");
     let app = match App::open(&store, None) {
         Ok(a) => a,
@@ -252,6 +475,15 @@ fn one_case(cfg: &Cfg, r: &mut Report, rt: &tokio::runtime::Runtime, rng: &mut R
     let mut known = Known::default();
     let mut msg_ids: Vec<String> = Vec::new();
     let tag = format!("c{idx}");
+    let log = app.engine.verif_event_log();
+    let snapshot_dir = store.data.join("snapshots");
+    let mr_path = store.streams_dir().join(format!("{thread}.mr.v1.jsonl"));
+    // a big log makes every reply lookup without a snapshot a full log scan: multi-MiB layouts keep snapshots
+    let heavy = lay.pad.as_ref().map(|p| p.threshold >= 2 * MIB).unwrap_or(false);
+    let (plans, focus) = match &lay.late {
+        Some(l) => plan_late(rng, l, lay.msgs, &tag, heavy || l.k >= 100),
+        None => (Vec::new(), 0),
+    };
     for m in 1..=lay.msgs {
         let real = lay.real_runs_every > 0 && m % lay.real_runs_every == 0;
         if real {
@@ -297,19 +529,40 @@ fn one_case(cfg: &Cfg, r: &mut Report, rt: &tokio::runtime::Runtime, rng: &mut R
                     msg_ids.push(id.clone());
                 }
             }
-            if rng.chance(1, 3) {
+            if rng.below(100) < lay.seq_runs {
                 // a fake (frame-only) run for this message, sometimes two (last run_ended wins)
                 let mid = msg_ids.last().cloned().unwrap_or_default();
                 for k in 0..(1 + rng.usize(2)) {
                     let sid = format!("fake-{tag}-{m}-{k}");
                     let _ = st.append_run_spawned(&thread, &mid, &sid, "a".into(), "rv".into());
+                    if heavy {
+                        write_session(&log, Some(&snapshot_dir), &sid, &format!("quick reply {tag} m{m} r{k}"), true);
+                    }
                     let _ = st.append_run_ended(&thread, &mid, &sid, "completed".into(), "a".into(), "rv".into());
+                }
+            }
+        }
+        // overlapping runs of this message start now (and stay open while later turns go on)
+        if msg_ids.len() == m {
+            for p in plans.iter().filter(|p| p.owner == m) {
+                let _ = st.append_run_spawned(&thread, &msg_ids[m - 1], &p.sid, "a".into(), "rv".into());
+                if p.end_after.is_none() {
+                    write_session(&log, None, &p.sid, &p.text, false);
+                    r.count("never_ending_runs_placed", 1);
                 }
             }
         }
         for _ in 0..lay.dense {
             let k = [OpKind::SideEffects, OpKind::SideEffects, OpKind::Cursor][rng.usize(3)];
             let _ = exec(&app, &store.data, &conts, &mut known, k, rng, &tag);
+        }
+        // older runs end here, between this message and the next one
+        for p in plans.iter().filter(|p| p.end_after == Some(m)) {
+            if let Some(mid) = msg_ids.get(p.owner - 1) {
+                write_session(&log, p.snapshot.then_some(snapshot_dir.as_path()), &p.sid, &p.text, true);
+                let _ = st.append_run_ended(&thread, mid, &p.sid, "completed".into(), "a".into(), "rv".into());
+                r.count("late_run_ended_frames_placed", 1);
+            }
         }
         for (ci, c) in lay.ckpts.iter().enumerate() {
             // place the checkpoint for message `c` some time after it was appended
@@ -343,8 +596,55 @@ fn one_case(cfg: &Cfg, r: &mut Report, rt: &tokio::runtime::Runtime, rng: &mut R
     for _ in 0..rng.usize(4) {
         let _ = exec(&app, &store.data, &conts, &mut known, OpKind::SideEffects, rng, &tag);
     }
+    // later traffic: big messages until the messages+runs sidecar has grown by the planned distance
+    let region_n = msg_ids.len();
+    let mr_len = |fallback: u64| std::fs::metadata(&mr_path).map(|m| m.len()).unwrap_or(fallback);
+    if let Some(pad) = &lay.pad {
+        let region_end = mr_len(0);
+        // (the sidecar holds nothing but this thread's messages and run ends, so the region starts at offset 0)
+        let region_bytes = region_end.max(1) as usize;
+        // beyond: the whole region is further than the budget from the tail; inside: the budget boundary falls on
+        // a seeded point of the region
+        let target = if pad.beyond { pad.threshold + rng.usize(pad.msg.max(1)) + 2 * KIB } else { pad.threshold.saturating_sub(rng.usize(region_bytes)) };
+        let block = rng.ascii(pad.msg.max(16));
+        let mut est = region_end;
+        let mut i = 0usize;
+        while i < 4000 {
+            let grown = mr_len(est).saturating_sub(region_end) as usize;
+            if grown + 300 >= target {
+                break;
+            }
+            let room = target - grown;
+            let size = pad.msg.min(room.saturating_sub(if pad.runs { 700 } else { 330 })).max(8);
+            i += 1;
+            let content = format!("pad {tag} #{i} {}", &block[..size.min(block.len())]);
+            est += content.len() as u64 + 330;
+            let Ok(id) = st.append_message(&thread, "a".into(), "rv".into(), content) else {
+                break;
+            };
+            known.msgs.push((thread.clone(), id.clone()));
+            if pad.runs {
+                let sid = format!("pad-{tag}-{i}");
+                let _ = st.append_run_spawned(&thread, &id, &sid, "a".into(), "rv".into());
+                write_session(&log, Some(&snapshot_dir), &sid, &format!("pad reply {i}"), true);
+                let _ = st.append_run_ended(&thread, &id, &sid, "completed".into(), "a".into(), "rv".into());
+                est += 370;
+            }
+            msg_ids.push(id);
+        }
+        r.count("pad_layout_cases", 1);
+        r.count("pad_bytes_built", mr_len(est).saturating_sub(region_end));
+    }
+    if lay.late.is_some() {
+        r.count("late_run_layout_cases", 1);
+    }
+    drop(log);
     drop(app);
 
+    let verbose = cfg.has_flag("--verbose");
+    if verbose {
+        eprintln!("case {idx}: {} built at {:.1}s", lay.name, r.elapsed());
+    }
     let frames = match truth::parse_log(&store.log_bytes_settled()) {
         Ok(f) => f,
         Err(e) => {
@@ -375,10 +675,43 @@ fn one_case(cfg: &Cfg, r: &mut Report, rt: &tokio::runtime::Runtime, rng: &mut R
     if lay.all_anchors {
         picks = (0..n).collect();
     }
+    // distance of every message (start of its line) from the tail of the messages+runs sidecar
+    let (offsets, mr_total) = mr_message_offsets(&mr_path);
+    let dist_of = |ai: usize| -> Option<u64> { offsets.get(&msg_ids[ai]).map(|o| mr_total.saturating_sub(*o)) };
+    if lay.pad.is_some() && n > region_n {
+        // every message of the anchor region, the first / last message of the later traffic, and for every byte
+        // budget the messages around it: j = first message wholly inside the budget-sized tail, j-1 just outside,
+        // j+15 / j+14 = first anchor whose 16-message window fits into that tail / last one whose window does not
+        picks = (0..region_n).collect();
+        picks.extend([region_n, n - 1, n.saturating_sub(LIMIT)]);
+        for b in BUDGETS {
+            let Some(j) = (0..n).find(|&i| dist_of(i).map(|d| d <= b as u64).unwrap_or(false)) else {
+                continue;
+            };
+            let around = [j.saturating_sub(1), j, j + LIMIT - 2, j + LIMIT - 1];
+            // quick tier, budget boundary in the later traffic: one anchor of each pair
+            let half = if cfg.tier.pick(true, false) && j >= region_n { Some((rng.usize(2), 2 + rng.usize(2))) } else { None };
+            for (k, a) in around.into_iter().enumerate() {
+                if a < n && half.map(|(x, y)| k == x || k == y).unwrap_or(true) {
+                    picks.push(a);
+                }
+            }
+        }
+    }
     picks.sort();
     picks.dedup();
 
-    for &ai in &picks {
+    // multi-MiB stores: one fork per cache state serves every anchor (a compile that appends no frames leaves the
+    // store as it was, apart from caches it rebuilds); fresh forks for a few anchors only
+    let big_store = std::fs::metadata(store.log_path()).map(|m| m.len()).unwrap_or(0) > 2 * MIB as u64;
+    let mut shared: Vec<Option<(Store, App)>> = vec![None, None, None, None];
+    let mut fresh_done = 0usize;
+
+    for (pi, &ai) in picks.iter().enumerate() {
+        if r.elapsed() > cfg.budget_s * 1.3 {
+            r.count("anchors_skipped_for_time", (picks.len() - pi) as u64);
+            break;
+        }
         let anchor = &msg_ids[ai];
         let Some(m) = model(&frames, &thread, anchor) else {
             r.inconclusive("anchor not in truth");
@@ -386,9 +719,30 @@ fn one_case(cfg: &Cfg, r: &mut Report, rt: &tokio::runtime::Runtime, rng: &mut R
         };
         let expect = expect_from_model(&m, &thread);
         let q = compile_q(anchor);
-        let pos_class = if ai + 1 == n { "tail" } else if n - 1 - ai >= 17 { "far" } else { "mid" };
+        let pos = if ai + 1 == n { "tail" } else if n - 1 - ai >= 17 { "far" } else { "mid" };
+        let dist = dist_of(ai);
+        let pos_class = match (&lay.pad, dist) {
+            (Some(_), Some(d)) => format!("{pos}@{}", dist_class(d)),
+            _ => pos.to_string(),
+        };
+        let pos_class = pos_class.as_str();
+        let ws = window_stats(&frames, &thread, &m);
+        if lay.late.is_some() || lay.pad.is_some() {
+            if let Some(d) = dist {
+                r.count(&format!("anchors_by_mr_distance_to_tail:{}", dist_class(d)), 1);
+            }
+            r.count(&format!("anchors_by_mr_frames_in_window:{}", match ws.mr_frames { 0..=16 => "le16", 17..=32 => "17-32", 33..=48 => "33-48", 49..=64 => "49-64", 65..=128 => "65-128", 129..=256 => "129-256", 257..=1024 => "257-1024", _ => "gt1024" }), 1);
+            if ws.late_ends > 0 {
+                r.count("anchors_with_run_ended_of_older_message_in_window", 1);
+                if dist.map(|d| d > 8 * MIB as u64).unwrap_or(false) {
+                    r.count("anchors_beyond_tail_scan_with_late_run_ended_in_window", 1);
+                }
+            }
+        }
         let wit = |variant: &str, got: &Value| {
             json!({"case": idx, "seed": cfg.seed, "layout": format!("{lay:?}"), "anchor_index": ai, "messages": n,
+                   "region_messages": region_n, "late_focus_cut_message": focus, "mr_distance_to_tail": dist,
+                   "mr_frames_in_window": ws.mr_frames, "run_ended_of_older_messages_in_window": ws.late_ends,
                    "variant": variant, "diff": diff_summary(got, &expect)})
         };
         // variants: caches as built / mr sidecars removed / every cache removed / snapshots removed
@@ -399,11 +753,8 @@ fn one_case(cfg: &Cfg, r: &mut Report, rt: &tokio::runtime::Runtime, rng: &mut R
             ("snapshots_removed", &[], true),
         ];
         let mut first: Option<Value> = None;
-        for (vi, (vname, remove, drop_snap)) in variants.into_iter().enumerate() {
-            if lay.all_anchors && vi % 2 == 1 && ai % 8 != 0 {
-                continue; // long layouts: caches intact + all removed for every anchor, the rest for every 8th
-            }
-            let f = store.fork_sharing_ws("c08v");
+        let prepare = |remove: &[&str], drop_snap: bool| -> Store {
+            let f = fork_light(&store);
             if remove.contains(&"*") {
                 let _ = std::fs::remove_dir_all(f.streams_dir());
             } else {
@@ -414,7 +765,64 @@ fn one_case(cfg: &Cfg, r: &mut Report, rt: &tokio::runtime::Runtime, rng: &mut R
             if drop_snap {
                 let _ = std::fs::remove_dir_all(f.data.join("snapshots"));
             }
-            let got = project(&run_query(&f, &thread, &q));
+            f
+        };
+        // big stores: fresh forks (cold rebuild of the removed caches for exactly this anchor) for the anchors around
+        // the late-run focus and a few others
+        let want_fresh = big_store && fresh_done < cfg.tier.pick(1, 8) && (ai + 1 == focus || (focus == 0 && pi == 3) || (cfg.tier.pick(false, true) && pi % 16 == 7));
+        if want_fresh {
+            fresh_done += 1;
+        }
+        for (vi, (vname, remove, drop_snap)) in variants.into_iter().enumerate() {
+            let got = if big_store {
+                if vi == 3 && !want_fresh {
+                    continue; // without snapshots every reply is a scan of the whole log
+                }
+                // rebuilt caches are the same files for every anchor: a quarter of the anchors (and the focus) suffice
+                if (vi == 1 || vi == 2) && !want_fresh && pi % 4 != 1 && ai + 1 != focus && ai != focus {
+                    continue;
+                }
+                if vi == 3 || (want_fresh && vi != 0) {
+                    let f = prepare(remove, drop_snap);
+                    r.count("big_store_compiles_on_fresh_fork", 1);
+                    project(&run_query(&f, &thread, &q))
+                } else {
+                    if shared[vi].is_none() {
+                        let f = prepare(remove, drop_snap);
+                        match App::open(&f, None) {
+                            Ok(a) => shared[vi] = Some((f, a)),
+                            Err(e) => {
+                                r.inconclusive(&format!("case {idx}: open fork: {e}"));
+                                continue;
+                            }
+                        }
+                    }
+                    let (f, a) = shared[vi].as_ref().expect("shared fork");
+                    r.count("big_store_compiles_on_shared_fork", 1);
+                    project(&run_query_live(a, f, &thread, &q))
+                }
+            } else {
+                if lay.all_anchors && vi % 2 == 1 && ai % 8 != 0 {
+                    continue; // long layouts: caches intact + all removed for every anchor, the rest for every 8th
+                }
+                if lay.all_anchors && vi == 0 {
+                    // nothing is removed and nothing is appended: one fork (one long-lived engine, as in a server)
+                    // serves every anchor
+                    if shared[0].is_none() {
+                        let f = prepare(remove, drop_snap);
+                        if let Ok(a) = App::open(&f, None) {
+                            shared[0] = Some((f, a));
+                        }
+                    }
+                    match shared[0].as_ref() {
+                        Some((f, a)) => project(&run_query_live(a, f, &thread, &q)),
+                        None => project(&run_query(&prepare(remove, drop_snap), &thread, &q)),
+                    }
+                } else {
+                    let f = prepare(remove, drop_snap);
+                    project(&run_query(&f, &thread, &q))
+                }
+            };
             r.eval();
             r.count("compiles_compared_with_model", 1);
             if got != expect {
@@ -437,8 +845,8 @@ fn one_case(cfg: &Cfg, r: &mut Report, rt: &tokio::runtime::Runtime, rng: &mut R
                 }
             }
         }
-        r.distinct_str(&format!("{}|{}|{}|ck{}|dense{}", lay.name, pos_class, m["compiler_strategy"].as_str().unwrap_or("?"),
-            m["compaction_checkpoints"].as_array().map(|a| a.len()).unwrap_or(0), lay.dense.min(3)));
+        r.distinct_str(&format!("{}|{}|{}|ck{}|dense{}|late{}", lay.name, pos_class, m["compiler_strategy"].as_str().unwrap_or("?"),
+            m["compaction_checkpoints"].as_array().map(|a| a.len()).unwrap_or(0), lay.dense.min(3), (ws.late_ends > 0) as u8));
         r.count(&format!("strategy:{}", m["compiler_strategy"].as_str().unwrap_or("?")), 1);
         let items = m["items"].as_array().map(|a| a.len()).unwrap_or(0);
         r.count("bundle_items_checked", items as u64);
@@ -447,6 +855,10 @@ fn one_case(cfg: &Cfg, r: &mut Report, rt: &tokio::runtime::Runtime, rng: &mut R
         }
     }
 
+    drop(shared);
+    if verbose {
+        eprintln!("case {idx}: {} anchors compiled at {:.1}s", picks.len(), r.elapsed());
+    }
     // (b) appends beyond the cut do not change the result; (d) nor do racing appenders
     let fixed: Vec<usize> = picks.iter().copied().filter(|ai| ai + 1 < n).collect();
     if !fixed.is_empty() {
@@ -553,6 +965,92 @@ fn one_case(cfg: &Cfg, r: &mut Report, rt: &tokio::runtime::Runtime, rng: &mut R
         r.sample(json!({"case": idx, "layout": format!("{lay:?}"), "messages": n, "anchors": picks,
             "frames": frames.len()}));
     }
+}
+
+/// Like `Store::fork_sharing_ws` (copy of `data/`, shared workspace), but the session snapshots — read-only for a
+/// compile, and there can be thousands of them — are hard-linked instead of copied.
+fn fork_light(store: &Store) -> Store {
+    static NEXT: std::sync::atomic::AtomicU64 = std::sync::atomic::AtomicU64::new(0);
+    let n = NEXT.fetch_add(1, Ordering::Relaxed);
+    let dir = crate::fixture::scratch_root().join(format!("c08f-{n}"));
+    let _ = std::fs::remove_dir_all(&dir);
+    let data = dir.join("data");
+    let _ = std::fs::create_dir_all(&data);
+    if let Ok(rd) = std::fs::read_dir(&store.data) {
+        for e in rd.flatten() {
+            let (src, dst) = (e.path(), data.join(e.file_name()));
+            match e.file_type() {
+                Ok(t) if t.is_dir() && e.file_name() == "snapshots" => {
+                    let _ = std::fs::create_dir_all(&dst);
+                    for s in std::fs::read_dir(&src).into_iter().flatten().flatten() {
+                        let to = dst.join(s.file_name());
+                        if std::fs::hard_link(s.path(), &to).is_err() {
+                            let _ = std::fs::copy(s.path(), &to);
+                        }
+                    }
+                }
+                Ok(t) if t.is_dir() => crate::fixture::copy_dir(&src, &dst),
+                Ok(t) if t.is_file() => {
+                    let _ = std::fs::copy(&src, &dst);
+                }
+                _ => {}
+            }
+        }
+    }
+    Store { dir, data, ws: store.ws.clone(), keep: false }
+}
+
+/// message id -> byte offset of its line in the messages+runs sidecar, and the sidecar's length (workload
+/// selection and evidence only, never part of the verdict)
+fn mr_message_offsets(path: &std::path::Path) -> (HashMap<String, u64>, u64) {
+    let mut out = HashMap::new();
+    let Ok(bytes) = std::fs::read(path) else {
+        return (out, 0);
+    };
+    let mut off = 0u64;
+    for line in bytes.split_inclusive(|b| *b == b'\n') {
+        // the envelope (id, type) precedes the payload; big contents need not be parsed
+        let head = &line[..line.len().min(400)];
+        let text = String::from_utf8_lossy(head);
+        if text.contains("\"type\":\"continuity_message_appended\"") {
+            if let Some(p) = text.find("\"id\":\"") {
+                let rest = &text[p + 6..];
+                if let Some(e) = rest.find('"') {
+                    out.insert(rest[..e].to_string(), off);
+                }
+            }
+        }
+        off += line.len() as u64;
+    }
+    (out, bytes.len() as u64)
+}
+
+struct WindowStats {
+    /// message + run_ended frames between the oldest window message and the cut (what the sidecar window holds)
+    mr_frames: usize,
+    /// run_ended frames in that range whose message is older than the window
+    late_ends: usize,
+}
+
+fn window_stats(frames: &[truth::Frame], thread: &str, m: &Value) -> WindowStats {
+    let from_seq = m["from_seq"].as_u64().unwrap_or(0);
+    let first = m["items"].as_array().and_then(|a| a.iter().find_map(|i| i["thread_seq"].as_u64())).unwrap_or(from_seq);
+    let tf = truth::stream(frames, "continuity", thread);
+    let seq_of: HashMap<&str, u64> = tf.iter().filter(|f| f.ty() == "continuity_message_appended").map(|f| (f.id(), f.seq())).collect();
+    let mut ws = WindowStats { mr_frames: 0, late_ends: 0 };
+    for f in tf.iter().filter(|f| f.seq() >= first && f.seq() <= from_seq) {
+        match f.ty() {
+            "continuity_message_appended" => ws.mr_frames += 1,
+            "continuity_run_ended" => {
+                ws.mr_frames += 1;
+                if seq_of.get(f.s("message_id")).map(|s| *s < first).unwrap_or(false) {
+                    ws.late_ends += 1;
+                }
+            }
+            _ => {}
+        }
+    }
+    ws
 }
 
 /// Is the difference between `expect` (model on the truth as it was) and `got` exactly what the
